@@ -229,7 +229,10 @@ def check_attribution(tr, msg, rec, res, tag=''):
                     res.bad('arg-invented-object' + tag, '%s arg %d' % (tr.lines[-1], i))
                 continue
             if mo.ghost:
-                if not isinstance(a, wl.Arg.Object) or a.obj.resolved() or (a.obj.type, a.obj.id) != (mo.iface, mo.id):
+                # (GDB mode knows the interface of an unseen object argument only where the message declares one: `wl_display.error`
+                # takes any object)
+                ok_types = (mo.iface, None) if tag == ':gdb-mode' else (mo.iface,)
+                if not isinstance(a, wl.Arg.Object) or a.obj.resolved() or a.obj.id != mo.id or a.obj.type not in ok_types:
                     res.bad('object-arg-attribution:unseen' + tag, '%s arg %d became %s, model says %r' % (tr.lines[-1], i, str(a), mo.key()))
                 continue
             if not isinstance(a, wl.Arg.Object) or not a.obj.resolved() or key_of(a.obj) != mo.key():
@@ -257,7 +260,8 @@ def check_attribution(tr, msg, rec, res, tag=''):
     # argument names can be known)
     line = str(msg)
     rx = expected_line_regex(rec, tr.dialect)
-    if gdb_sent_unseen:
+    gdb_unseen_arg = tag == ':gdb-mode' and any(o is not None and o.ghost for o in rec['args'])
+    if gdb_sent_unseen or gdb_unseen_arg:
         pass
     elif not re.fullmatch(rx, line):
         res.bad('rendered-line' + tag, 'shown %r, expected to match %r' % (line, rx))
